@@ -7,7 +7,7 @@ from typing import Any
 import z3
 
 from . import values as V
-from .contract import LoopSpec
+from .contract import LoopSpec, Sort
 from .engine_expr import Ctx
 from .state import ClauseError, Env, State
 from .values import And, ExcVal, Not, Opt, Raised, Ref, Seg, Tup, Unsupported, exc_is_a
@@ -120,12 +120,228 @@ def summarised_for(eng: Any, s: ast.For, items: list, st: State, ctx: Ctx, spec:
 
 
 def loop_cut(eng: Any, s: Any, st: State, ctx: Ctx, it: Any = None):
-    raise Unsupported("loop over an abstract iterable / while loop (no invariant support for this shape yet)", s)
+    """`for x in <abstract iterable>` / `while`: cut by the invariant of the LoopSpec with this loop's ordinal.
+
+      establish:  the invariant holds on entry;
+      preserve:   from an arbitrary state satisfying it (everything in `modifies` havoced), one more iteration
+                  re-establishes it - and every frame produced in the iteration has been yielded;
+      use:        the code after the loop runs from an arbitrary state satisfying it.
+    Yields inside the body are recorded as an opaque run of yields (st.out gets a marker)."""
+    spec = loop_spec(eng, s, ctx)
+    if spec is None or spec.invariant is None:
+        raise Unsupported("loop over an abstract iterable / while loop without an invariant in the contract", s)
+    is_for = isinstance(s, ast.For)
+    if is_for:
+        if not (isinstance(it, Ref) and st.obj(it).kind == "absiter"):
+            raise Unsupported("for-loop over a value that is neither a concrete sequence nor an abstract iterable", s)
+    # establish
+    env0 = _locals_env(eng, st)
+    env0.snapshot_old()
+    try:
+        inv0 = eng.eval_clause_dict(spec.invariant, env0)
+    except ClauseError as ex:
+        inv0 = {f"clause-evaluable({ex})": False}
+    for lab, g in inv0.items():
+        eng.oblige(st, f"loop@L{s.lineno}.establish.{lab}", "invariant", g, s)
+    # arbitrary iteration state
+    st_h = st
+    for path in spec.modifies:
+        parts = path.split(".")
+        if len(parts) == 1:
+            if parts[0] not in st_h.locals:
+                continue
+            v = st_h.locals[parts[0]]
+            if parts[0] in spec.local_sorts:
+                st_h, nv, inv = eng.make(st_h, spec.local_sorts[parts[0]], f"{parts[0]}'")
+                st_h = st_h.assume(*inv).set_local(parts[0], nv)
+            elif isinstance(v, Ref):
+                st_h = eng.havoc_obj(st_h, v, f"{parts[0]}'")
+            else:
+                st_h, nv = eng.fresh_like(st_h, v, f"{parts[0]}'")
+                st_h = st_h.set_local(parts[0], nv)
+        else:
+            st_h = eng.havoc_path(st_h, path, dict(st_h.locals), ctx.contract)
+    for path in spec.extends:
+        parts = path.split(".")
+        cur = st.locals.get(parts[0])
+        for p_ in parts[1:]:
+            if not isinstance(cur, Ref):
+                raise Unsupported(f"extends path {path}: {p_} is not reachable", s)
+            cur = st.obj(cur).get(p_)
+        if not (isinstance(cur, Ref) and st.obj(cur).kind == "list"):
+            raise Unsupported(f"extends path {path} is not a list", s)
+        seg = Seg(V.fresh_of_sort(f"{parts[-1]}+", V.SegSort), f"{parts[-1]}+")
+        st_h = st_h.assume(V.seg_len(seg.const) >= 0).heap_set(cur, "items", tuple(st.obj(cur).get("items")) + (seg,))
+    env_h = _locals_env(eng, st_h)
+    object.__setattr__(env_h, "_old_heap", st.heap)
+    object.__setattr__(env_h, "_old_binds", dict(env0._binds))
+    inv_h = eng.eval_clause_dict(spec.invariant, env_h)
+    st_h = env_h.st.assume(*inv_h.values())
+    st_h = st_h.emit(("$yields", f"loop@L{s.lineno}"))
+    # one more iteration
+    if is_for:
+        o = st_h.obj(it)
+        st_i, elem, inv = eng.make(st_h, o.get("elem"), f"item@L{s.lineno}")
+        st_i = st_i.assume(*inv)
+        starts = list(eng.assign(s.target, elem, st_i.with_note(f"L{s.lineno}:iteration"), ctx))
+    else:
+        starts = []
+        for st_c, c in eng.eval(s.test, st_h, ctx):
+            if isinstance(c, Raised):
+                yield st_c, ("raise", c.exc)
+                continue
+            for st_b, b in eng.branch(st_c, eng.truth(st_c, c, s), f"L{s.lineno}while"):
+                if b:
+                    starts.append((st_b.with_note(f"L{s.lineno}:iteration"), NORMAL))
+    for st_s, out_s in starts:
+        if out_s[0] != "normal":
+            yield st_s, out_s
+            continue
+        ev0 = len(st_s.events)
+        for st1, out in eng.exec_block(s.body, st_s, ctx):
+            if out[0] in ("normal", "continue"):
+                eng.check_linear(st1, None, s, f"loop@L{s.lineno}.", since=ev0)
+                env1 = _locals_env(eng, st1)
+                object.__setattr__(env1, "_old_heap", st.heap)
+                object.__setattr__(env1, "_old_binds", dict(env0._binds))
+                try:
+                    inv1 = eng.eval_clause_dict(spec.invariant, env1)
+                except ClauseError as ex:
+                    inv1 = {f"clause-evaluable({ex})": False}
+                for lab, g in inv1.items():
+                    eng.oblige(st1, f"loop@L{s.lineno}.preserve.{lab}", "invariant", g, s)
+                if spec.after_each is not None:
+                    try:
+                        ae = eng.eval_clause_dict(spec.after_each, env1)
+                    except ClauseError as ex:
+                        ae = {f"clause-evaluable({ex})": False}
+                    for lab, g in ae.items():
+                        eng.oblige(st1, f"loop@L{s.lineno}.after-each.{lab}", "invariant", g, s)
+            elif out[0] == "raise":
+                yield st1, out
+            elif out[0] == "return":
+                yield st1, out
+            elif out[0] == "break":
+                yield st1, NORMAL
+    # exit
+    if is_for:
+        st_x = st_h.with_note(f"L{s.lineno}:exhausted")
+        if s.orelse:
+            yield from eng.exec_block(s.orelse, st_x, ctx)
+        else:
+            yield st_x, NORMAL
+    else:
+        for st_c, c in eng.eval(s.test, st_h, ctx):
+            if isinstance(c, Raised):
+                continue
+            for st_b, b in eng.branch(st_c, eng.truth(st_c, c, s), f"L{s.lineno}while-exit"):
+                if not b:
+                    yield st_b.with_note(f"L{s.lineno}:exit"), NORMAL
+
+
+def resolve_iterable(eng: Any, st: State, v: Any, node: Any, ctx: Ctx):
+    """what a for-loop / `yield from` really iterates over -> [(state, iterable | Raised)]
+      - an object whose class defines __iter__: the result of calling it;
+      - a suspended *transparent* generator (its body is the single statement `yield from <expr>`): <expr>, evaluated
+        in the generator's own bindings at the point of consumption (generators are lazy);
+      - a suspended generator with a contract declaring `yields`: the contract takes effect here (A-GENDRAIN: the effects
+        of the generator do not interleave observably with the consumer) and the consumer sees an abstract iterable."""
+    if isinstance(v, Ref):
+        o = st.obj(v)
+        if o.kind == "obj" and hasattr(o.cls, "find_method"):
+            m = o.cls.find_method("__iter__")
+            if m is not None:
+                for st1, r in eng.call_function(st, m, [v], {}, node, ctx):
+                    if isinstance(r, Raised):
+                        yield st1, r
+                    else:
+                        yield from resolve_iterable(eng, st1, r, node, ctx)
+                return
+        if o.kind == "gen":
+            fi = o.get("fi")
+            body = [b for b in fi.node.body if not (isinstance(b, ast.Expr) and isinstance(b.value, ast.Constant))]
+            if len(body) == 1 and isinstance(body[0], ast.Expr) and isinstance(body[0].value, ast.YieldFrom):
+                saved = st.locals
+                gctx = Ctx(fi.module, fi, fi.cls)
+                for st1, r in eng.eval(body[0].value.value, st.with_locals(dict(o.get("binds"))), gctx):
+                    st1 = st1.with_locals(saved)
+                    if isinstance(r, Raised):
+                        yield st1, r
+                    else:
+                        yield from resolve_iterable(eng, st1, r, node, ctx)
+                return
+            c = eng.find_contract(fi)
+            if c is not None and c.yields is not None:
+                for st1, res in eng.apply_contract(st, c, dict(o.get("binds")), node, fi):
+                    if isinstance(res, Raised):
+                        yield st1, res
+                    else:
+                        st2, it, inv = eng.make(st1, Sort("absiter", c.yields), f"items-of-{fi.key.split(':')[-1]}")
+                        yield st2.assume(*inv), it
+                return
+            raise Unsupported(f"generator {fi.key} is consumed here but is neither transparent nor has a contract with `yields`", node)
+    yield st, v
 
 
 def make_generator(eng: Any, st: State, fi: Any, args: list, kwargs: dict, node: Any, ctx: Ctx):
-    raise Unsupported(f"call of generator function {fi.key}", node)
+    """calling a generator function creates a suspended generator: nothing runs yet"""
+    st, binds = eng.bind_params(st, fi, args, kwargs, node)
+    st2, r = eng.alloc(st, "gen", None, fi=fi, binds=tuple(binds.items()), started=False)
+    yield st2, r
 
 
 def exec_yield(eng: Any, e: Any, st: State, ctx: Ctx):
-    raise Unsupported("yield", e)
+    if isinstance(e, ast.Yield):
+        if e.value is None:
+            yield st.emit(None), NORMAL
+            return
+        for st1, v in eng.eval(e.value, st, ctx):
+            if isinstance(v, Raised):
+                yield st1, ("raise", v.exc)
+            else:
+                yield st1.emit(v), NORMAL
+        return
+    # yield from X
+    for st0, v0 in eng.eval(e.value, st, ctx):
+      if isinstance(v0, Raised):
+          yield st0, ("raise", v0.exc)
+          continue
+      if isinstance(v0, Ref) and st0.obj(v0).kind == "gen" and _has_plain_contract(eng, st0.obj(v0).get("fi")):
+          yield from drain_generator(eng, st0, v0, e, ctx, emit=True)
+          continue
+      for st1, v in resolve_iterable(eng, st0, v0, e, ctx):
+        if isinstance(v, Raised):
+            yield st1, ("raise", v.exc)
+            continue
+        items = eng.concrete_items(st1, v)
+        if items is not None:
+            st2 = st1
+            for it in items:
+                st2 = st2.emit(it)
+            yield st2, NORMAL
+            continue
+        if isinstance(v, Ref) and st1.obj(v).kind == "absiter":
+            # everything the source holds is passed on, in order
+            yield st1.emit(("$yield-from", v)), NORMAL
+            continue
+        raise Unsupported("yield from a value that is neither a sequence, an abstract iterable nor a generator", e)
+
+
+def _has_plain_contract(eng: Any, fi: Any) -> bool:
+    c = eng.find_contract(fi)
+    return c is not None and not c.inline and not c.inline_at_calls
+
+
+def drain_generator(eng: Any, st: State, g: Ref, node: Any, ctx: Ctx, emit: bool):
+    """run a suspended generator to exhaustion through its contract (A-GENDRAIN: consumers drain or abandon)"""
+    o = st.obj(g)
+    fi = o.get("fi")
+    c = eng.find_contract(fi)
+    if c is None:
+        raise Unsupported(f"generator {fi.key} is consumed here but has no contract", node)
+    binds = dict(o.get("binds"))
+    for st1, res in eng.apply_contract(st, c, binds, node, fi):
+        if isinstance(res, Raised):
+            yield st1, ("raise", res.exc)
+        else:
+            yield (st1.emit(("$yields-of", fi.key)) if emit else st1), NORMAL
